@@ -11,7 +11,7 @@ from gwcs import coordinate_frames as cf
 from gwcs import wcs as gw
 
 
-def gen_params(rng, distortion=None, near_pole=False):
+def gen_params(rng, distortion=None, near_pole=False, aligned=False):
     scale = 10 ** rng.uniform(-6, -3)
     if distortion is None:
         distortion = rng.random() < 0.6
@@ -20,7 +20,8 @@ def gen_params(rng, distortion=None, near_pole=False):
         "crpix": [round(rng.uniform(100, 900), 1), round(rng.uniform(100, 900), 1)],
         "crval": [round(rng.choice([0.0, 359.9, 180.0, rng.uniform(0, 360)]), 6), round(dec, 6)],
         "scale": scale,
-        "rot": round(rng.choice([0.0, rng.uniform(-180, 180)]), 3),
+        # aligned: pixel axes along the sky axes (the family the fixed-point iteration is designed for)
+        "rot": round(rng.choice([0.0, rng.uniform(-2, 2)]), 3) if aligned else round(rng.choice([0.0, rng.uniform(-180, 180)]), 3),
         "parity": rng.choice([1, -1]),
         "proj": "TAN",
         "bbox": [[-0.5, round(rng.uniform(600, 1400)) - 0.5], [-0.5, round(rng.uniform(600, 1400)) - 0.5]],
